@@ -102,7 +102,13 @@ def eval_case(case, cfg, reencodings, stats):
     if copy_kind in ("copy", "monotone") and "q_copy" not in base:
         fail("a feature that is a copy of (or strictly monotone in) the target is not returned", returned=base, copy=copy_kind)
     if copy_kind == "qual_copy" and task == "classification" and "k_copy" not in base:
-        fail("a qualitative copy of the target is not returned", returned=base, quant_only=False)
+        # known finding C15-yates-2x2: the 2x2 table of a binary target and its copy gets Yates' correction (V < 1), a
+        # feature with more categories does not and can outrank it; the correlation filter then drops the copy
+        rivals = [f for f in qual if f != "k_copy" and keys.get(f, float("nan")) > keys.get("k_copy", float("nan"))]
+        fail("a qualitative copy of the target is not returned", returned=base, quant_only=False,
+             yates_2x2=bool(len(set(y.tolist())) == 2 and keys.get("k_copy", 1.0) < 1.0 - 1e-9
+                            and any(X[f].nunique() > 2 and f in base for f in rivals)),
+             copy_measure=keys.get("k_copy"), outranked_by={f: keys[f] for f in rivals})
     for kind, par in reencodings:
         X2, y2, q2, k2 = apply_reencoding(kind, par, X, y, quant, qual)
         stats["pairs"] += 1
@@ -193,6 +199,8 @@ def worker(args):
 def matcher(f, known):
     for k in known:
         if k.get("when") == "regression-distance" and f.get("regression_distance"):
+            return k
+        if k.get("when") == "yates-2x2" and f.get("yates_2x2") and f.get("what") == "a qualitative copy of the target is not returned":
             return k
     return None
 
